@@ -298,3 +298,83 @@ def check_decode(seed=0):
         if out.dtype.kind != "u" or out.dtype.itemsize != 2 or list(map(int, out)) != [v] * 3:
             return False, n_eval, dict(input=v, observed=repr(out), expected=[v] * 3)
     return True, n_eval, None
+
+
+def check_post_init(seed=0, trials=300):
+    """class invariant of Array after __post_init__ on random small inputs: records_per_chunk = min(rpc, n) (1024 for None),
+    one chunk entry per ceil(n/c) chunk whose span is exactly [min start, max stop] of the chunk's rows"""
+    import fsspec
+    from fsspec.implementations.dirfs import DirFileSystem
+
+    from ceos_alos2.array import Array
+
+    rng = np.random.default_rng(seed)
+    fs = DirFileSystem(path="/x", fs=fsspec.filesystem("memory"))
+    n_eval = 0
+    for _ in range(trials):
+        n = int(rng.integers(1, 13))
+        starts = rng.integers(0, 1000, n)
+        ranges = [(int(s), int(s) + 8) for s in starts]
+        for rpc in [None] + sorted({1, 2, max(1, n - 1), n, n + 1, n + 2}):
+            n_eval += 1
+            arr = Array(fs=fs, url="f", byte_ranges=ranges, shape=(n, 4), dtype="uint16", type_code="IU2", records_per_chunk=rpc)
+            c = 1024 if rpc is None else min(rpc, n)  # None: the documented default, not clamped
+            want = {}
+            for k in range(-(-n // c)):
+                rows = ranges[k * c:(k + 1) * c]
+                lo, hi = min(r[0] for r in rows), max(r[1] for r in rows)
+                want[k] = {"offset": lo, "size": hi - lo}
+            if arr.records_per_chunk != c or dict(arr.chunk_offsets) != want:
+                return False, n_eval, dict(input={"byte_ranges": ranges, "records_per_chunk": rpc},
+                                           observed={"records_per_chunk": arr.records_per_chunk, "chunk_offsets": dict(arr.chunk_offsets)},
+                                           expected={"records_per_chunk": c, "chunk_offsets": want})
+    return True, n_eval, None
+
+
+def check_concurrent_loads(seed=0, threads=8, rounds=40):
+    """sampled schedules: several threads load overlapping selections of the same / different lazily wrapped images and
+    of pickled copies; every result must equal the sequential one (bounded stand-in for C19's hypotheses)"""
+    import pickle
+    import threading
+
+    import xarray as xr
+
+    from ceos_alos2.hierarchy import Variable
+    from ceos_alos2.xarray import to_variable
+
+    rng = np.random.default_rng(seed)
+    arrs = [build_array(6, 3, tc, rpc, seed=seed + i) for i, (tc, rpc) in enumerate((("IU2", 2), ("C*8", 4), ("IU2", 6)))]
+    lazy = [xr.DataArray(to_variable(Variable(["rows", "columns"], a[0], {}))) for a in arrs]
+    mats = [a[2] for a in arrs]
+    try:
+        lazy += [pickle.loads(pickle.dumps(lazy[0]))]
+        mats += [arrs[0][2]]
+    except Exception:  # noqa: BLE001  (the tracing filesystem of the harness is not picklable)
+        pass
+    keys = [slice(None), slice(1, 5), slice(None, None, 2), 3, slice(4, None)]
+    n_eval = 0
+    errors = []
+
+    def work(tid):
+        r = np.random.default_rng(seed * 1000 + tid)
+        for _ in range(rounds):
+            i = int(r.integers(0, len(lazy)))
+            k = keys[int(r.integers(0, len(keys)))]
+            try:
+                got = lazy[i].isel(rows=k).values
+                if not bits_equal(got, mats[i][k]):
+                    errors.append(dict(image=i, key=repr(k), observed=repr(got)[:120], expected=repr(mats[i][k])[:120]))
+            except Exception as e:  # noqa: BLE001
+                errors.append(dict(image=i, key=repr(k), observed=f"{type(e).__name__}: {e}"[:160], expected="values of the sequential load"))
+
+    ts = [threading.Thread(target=work, args=(t,)) for t in range(threads)]
+    for t in ts:
+        t.start()
+    for t in ts:
+        t.join(120)
+    n_eval = threads * rounds
+    if any(t.is_alive() for t in ts):
+        return False, n_eval, dict(input="8 threads x 40 loads", observed="a thread did not finish (deadlock?)", expected="all threads complete")
+    if errors:
+        return False, n_eval, dict(input=errors[0], observed=errors[0]["observed"], expected=errors[0]["expected"])
+    return True, n_eval, None
